@@ -169,5 +169,41 @@ UNIT = {
     ensures dtls_record_post(i@, r),
 """},
     ],
-    "epilogue": "",
+    "epilogue": r'''
+// C06 LOCALITY for DTLS handshake messages and records
+proof fn lemma_dtls_hs_local(b: Seq<u8>, x: Seq<u8>, r1: IResult<&[u8], DTLSMessage>, r2: IResult<&[u8], DTLSMessage>)
+    requires dtls_hs_post(b, r1), r1 is Ok, dtls_hs_post(b + x, r2),
+    ensures
+        r2 is Ok, r2->Ok_0.0@ =~= r1->Ok_0.0@ + x,
+        r1->Ok_0.1 is Handshake && r2->Ok_0.1 is Handshake,
+        ({ let m1 = r1->Ok_0.1->Handshake_0; let m2 = r2->Ok_0.1->Handshake_0;
+           m1.msg_type == m2.msg_type && m1.length == m2.length && m1.message_seq == m2.message_seq
+           && m1.fragment_offset == m2.fragment_offset && m1.fragment_length == m2.fragment_length
+           && (if m1.body is Fragment { m2.body is Fragment && m2.body->Fragment_0@ =~= m1.body->Fragment_0@ } else { m2.body == m1.body }) }),
+{
+    let bx = b + x;
+    assert(b.len() >= 12);
+    assert(forall|k: int| 0 <= k < 12 ==> bx[k] == b[k]);
+    let flen = be24s(b, 9);
+    assert(be24s(bx, 9) == flen && be24s(bx, 1) == be24s(b, 1) && be24s(bx, 6) == be24s(b, 6) && be16s(bx, 4) == be16s(b, 4));
+    assert(b.len() >= 12 + flen);
+    assert(bx.subrange(12, 12 + flen) =~= b.subrange(12, 12 + flen));
+    assert(bx.subrange(12 + flen, bx.len() as int) =~= b.subrange(12 + flen, b.len() as int) + x);
+}
+
+proof fn lemma_dtls_record_local(b: Seq<u8>, x: Seq<u8>, r1: IResult<&[u8], DTLSPlaintext>, r2: IResult<&[u8], DTLSPlaintext>)
+    requires dtls_record_post(b, r1), dtls_record_post(b + x, r2), b.len() >= 13, b.len() >= 13 + be16s(b, 11),
+    ensures
+        r1 is Ok <==> r2 is Ok,
+        r1 is Ok ==> r2->Ok_0.1.header == r1->Ok_0.1.header && r2->Ok_0.1.messages == r1->Ok_0.1.messages && r2->Ok_0.0@ =~= r1->Ok_0.0@ + x,
+{
+    let bx = b + x;
+    assert(forall|k: int| 0 <= k < 13 ==> bx[k] == b[k]);
+    let l = be16s(b, 11);
+    assert(be16s(bx, 11) == l);
+    assert(dtls_hdr_of(bx) == dtls_hdr_of(b));
+    assert(bx.subrange(13, 13 + l) =~= b.subrange(13, 13 + l));
+    assert(bx.subrange(13 + l, bx.len() as int) =~= b.subrange(13 + l, b.len() as int) + x);
+}
+''',
 }
